@@ -755,6 +755,7 @@ def run(rep, tier, seed):
     # ---- values that cannot be printed (beyond the int-to-str limit, not decodable into text): logging on must not turn
     # a codec call that succeeds into one that fails, for every codec (native included), encode and decode
     check_unprintable_values_with_logging(rep)
+    check_suspended_decoders_with_logging(rep)
     # ---- the same with debug logging switched on
     sink = []
     debug.setLogger(debug.Debug('all', printer=lambda m: sink.append(len(m))))
@@ -790,6 +791,16 @@ def check_unprintable_values_with_logging(rep):
               ('OCTET STRING (utf-8) that is not utf-8', univ.OctetString(b'\xff\xfe', encoding='utf-8')),
               ('record holding both', rec), ('SEQUENCE OF huge INTEGER', univ.SequenceOf(componentType=univ.Integer()).clone())]
     values[-1][1].extend([big, 1])
+    # deep nesting: more scope entries alive at once than any bound a logger might put on its bookkeeping
+    deep_t = univ.Integer()
+    for _ in range(24):
+        deep_t = univ.Sequence(componentType=namedtype.NamedTypes(namedtype.NamedType('x', deep_t)))
+    deep_v = deep_t.clone()
+    cur = deep_v
+    for _ in range(23):
+        cur = cur['x']
+    cur['x'] = 5
+    values.append(('INTEGER inside 24 nested SEQUENCEs', deep_v))
     quiet = lambda m: None  # noqa
 
     def outcome(f):
@@ -825,6 +836,52 @@ def check_unprintable_values_with_logging(rep):
                 rep.fail('logging-changes-outcome', '%s of %s: %s with logging off, %s with logging on, %s off again' % (
                     cname, name, str(outs[0])[:80], str(outs[1])[:80], str(outs[2])[:80]),
                     {'kind': 'logging-unprintable', 'value': name, 'call': cname})
+
+
+def check_suspended_decoders_with_logging(rep):
+    """several streaming decoders suspended inside nested values at the same time, resumed in turn: the same objects with
+    logging off and on"""
+    from pyasn1.type import namedtype
+    from harness import streams
+    t = univ.Integer()
+    for _ in range(5):
+        t = univ.Sequence(componentType=namedtype.NamedTypes(namedtype.NamedType('x', t)))
+    v = t.clone()
+    cur = v
+    for _ in range(4):
+        cur = cur['x']
+    cur['x'] = 258
+    data = bytes(codec.ENC['der'].encode(v))
+    outs = []
+    for logger in (None, debug.Debug('all', printer=lambda m: None), None):
+        debug.setLogger(logger)
+        try:
+            res = []
+            decs = []
+            for k in range(6):
+                s = streams.GrowingStream(seekable=(k % 2 == 0))
+                s.feed(data[:-1])
+                it = iter(codec.DEC['der'].StreamingDecoder(s, asn1Spec=t))
+                decs.append((s, it))
+            try:
+                for s, it in decs:
+                    x = next(it)
+                    res.append('U' if isinstance(x, error.SubstrateUnderrunError) else 'V')
+                for s, it in decs:
+                    s.feed(data[-1:])
+                    s.close_input()
+                    x = next(it)
+                    res.append('U' if isinstance(x, error.SubstrateUnderrunError) else bytes(codec.ENC['der'].encode(x)).hex())
+            except Exception as e:  # noqa
+                res.append('raises ' + type(e).__name__)
+            outs.append(res)
+        finally:
+            debug.setLogger(None)
+    rep.evaluations += 1
+    rep.count('suspended-decoders-with-logging')
+    if not (outs[0] == outs[1] == outs[2]) or outs[0][-1] != data.hex():
+        rep.fail('logging-changes-outcome', 'six suspended streaming decoders resumed in turn: %s with logging off, %s with logging on, '
+                 '%s off again' % (outs[0][-3:], outs[1][-3:], outs[2][-3:]), {'kind': 'logging-suspended-decoders', 'bytes': data.hex()})
 
 
 def replay(path):
